@@ -17,7 +17,7 @@ CHECKS = {
          "QoS 2-heavy histories with PUBREC/PUBCOMP in arbitrary order and failure codes; PUBREL only after successful PUBREC, never PUBLISH after PUBREC, PUBREL replay order = PUBREC arrival order, exactly one replay per resumed drained connection.", "DESIGN.md 3/C03"),
  "C04": ck("exploration", "reference receiver model (expected deliveries and acknowledgement sequence) compared with observed deliveries and decoded acks",
          "The reference broker originates publishes of all QoS / identifier / property / size shapes plus retransmissions and PUBRELs; a small deterministic receiver model predicts what must be delivered and which acks must appear in which order.", "DESIGN.md 3/C04"),
- "C05": ck("exploration", "trace monitor over sequences of connections with arbitrary session-present answers and failed handshakes",
+ "C05": ck("exploration", "trace monitor over sequences of connections with arbitrary session-present answers and failed handshakes; cancellation at every await index (connect included) and faults at every I/O index of base programs",
          "CONNECT flags / client id, connect event, handle invalidation, absence of stale transmissions, complete in-order replay are judged on every connection of every generated history.", "DESIGN.md 3/C05"),
  "C06": ck("exploration", "conservation monitor (window occupancy in the broker's view) evaluated at every PUBLISH completion",
          "unresolved = PUBLISHes completed on the wire + exchanges entering the connection in release phase - acks the broker has sent; must never exceed the CONNACK's Receive Maximum; refusals must leave no trace; no exchange dropped.", "DESIGN.md 3/C06"),
